@@ -162,7 +162,14 @@ func (b *BeaconNode) SubmitSignedContributionAndProof(c *altair.SignedContributi
 }
 
 func (b *BeaconNode) SubmitVoluntaryExit(ve *phase0.SignedVoluntaryExit) error {
-	b.add(&SubmitRec{Kind: "voluntary-exit", Obj: ve.Message, DomainType: spectypes.DomainVoluntaryExit, Sig: ve.Signature, Raw: ve})
+	rec := &SubmitRec{Kind: "voluntary-exit", DomainType: spectypes.DomainVoluntaryExit, Sig: ve.Signature, Raw: ve}
+	if ve.Message == nil {
+		// recorded with Obj == nil; the fixture would dereference the nil message
+		b.add(rec)
+		return nil
+	}
+	rec.Obj = ve.Message
+	b.add(rec)
 	return b.TestingBeaconNode.SubmitVoluntaryExit(ve)
 }
 
